@@ -303,7 +303,7 @@ func run(r *vk.Runner) {
 					fs = []fault{{"wrong-type-array", `[]`}, {"wrong-type-string", `"x"`}, {"wrong-type-number", `1`}, {"wrong-type-bool", `true`}}
 				case gpb.SAny:
 					nodeKind = "any"
-					fs = []fault{{"wrong-type-array", `[]`}, {"wrong-type-string", `"x"`}, {"wrong-type-number", `1`}, {"no-type", `{"value":{}}`}, {"no-value", `{"!type":"vt.v1.Sub"}`}, {"type-not-string", `{"!type":1,"value":{}}`}}
+					fs = []fault{{"wrong-type-array", `[]`}, {"wrong-type-string", `"x"`}, {"wrong-type-number", `1`}, {"no-type", `{"value":{}}`}, {"no-value", `{"!type":"vt.v1.Sub"}`}, {"type-not-string", `{"!type":1,"value":{}}`}, {"unknown-key-for-value", `{"!type":"vt.v1.Sub","bogus":{}}`}, {"unknown-key-after-value", `{"!type":"vt.v1.Sub","value":{},"extra":1}`}, {"two-values", `{"!type":"vt.v1.Sub","value":{},"value":{"sVal":"x"}}`}}
 				}
 				for _, f := range fs {
 					reject(fmt.Sprintf("n%d:%s", ni, f.name), f.name, gpb.Render(sp, &gpb.RenderOpts{Target: ni, Variant: "raw", Raw: f.text}), nodeKind)
